@@ -578,3 +578,26 @@ Proof.
       rewrite http_status_of_code_not_2xx. reflexivity.
     + apply http_err_code_consistent. apply http_status_of_code_not_2xx.
 Qed.
+
+(* ---------------------------------------------------------------------------------------------
+   the hop relative to the receiver's Shutdown
+   --------------------------------------------------------------------------------------------- *)
+Lemma shutdown_drains_l : forall t a n o, hop_at InFlightAtShutdown t a n o = hop t a n o.
+Proof. reflexivity. Qed.
+
+Lemma after_shutdown_l : forall t a n o,
+  h_called (hop_at AfterShutdown t a n o) = false /\ h_verdict (hop_at AfterShutdown t a n o) = Retryable.
+Proof. intros t a n o. destruct t; split; reflexivity. Qed.
+
+(* the sender sees success iff the consumer was handed the data and accepted it, whatever the phase *)
+Lemma success_iff_consumer_accepted_l : forall ph t a n o, a <> AuthFail -> (0 < n)%N -> ok_coded o = false ->
+  (h_verdict (hop_at ph t a n o) = Success <-> (h_called (hop_at ph t a n o) = true /\ o = Accept)).
+Proof.
+  intros ph t a n o Ha Hn Hk.
+  assert (R : h_verdict (hop t a n o) = Success <-> (h_called (hop t a n o) = true /\ o = Accept)).
+  { rewrite (success_iff_accepted_l t a n o Ha Hn Hk). split.
+    - intros ->. rewrite (hop_accept t a n Ha Hn). split; reflexivity.
+    - intros [_ E]. exact E. }
+  destruct ph; try exact R.
+  destruct (after_shutdown_l t a n o) as [Hc Hv]. rewrite Hc, Hv. split; [discriminate|intros [E _]; discriminate].
+Qed.
